@@ -494,8 +494,8 @@ def _slot_desc(kind, row, keys):
 
 
 def encode(case, obs):
-  if obs['err']:
-    return None
+  if obs['err'] or case['hp'].get('backend'):
+    return None     # the scripts model the jit backend of for_each_client (gen/Gen_for_each_client.v: jit_*); debug / pmap: oracle only
   name = case['name']
   init = fw.clist([_slot_desc(k, row, []) for k, row in obs['init']])
   rounds, robs = [], []
